@@ -316,23 +316,14 @@ impl Session {
                 })
             }
             ["areas"] => {
-                let v = self.ax().verif_areas();
+                // (digests computed in place: the contents are not copied)
+                let v = self.ax().verif_area_digests();
                 if v.is_empty() {
                     return Some("none".into());
                 }
                 Some(
                     v.iter()
-                        .map(|a| {
-                            format!(
-                                "{},{:x},{:x},{},{:x},{:x}",
-                                a.name.clone().unwrap_or("~".into()),
-                                a.start,
-                                a.length,
-                                a.access,
-                                a.data.len(),
-                                fnv64(&a.data)
-                            )
-                        })
+                        .map(|a| format!("{},{:x},{:x},{},{:x},{:x}", a.0.clone().unwrap_or("~".into()), a.1, a.2, a.3, a.4, a.5))
                         .collect::<Vec<_>>()
                         .join(" "),
                 )
